@@ -100,6 +100,13 @@ def hand_universes():
         "kernel": [],
         "progs": [prog([X("xcall", "la::a", "p")]), prog([X("xexec", "la::a", "s")]), prog([X("xexec", "la::a", "w")]), prog([X("xref", "la::a", "e")]),
                   prog([it("call", i=3)], [proc("r", [op(1)], export=False), proc("q", [it("call", i=1)], export=False), proc("p", [it("ref", i=2)], export=False)])]})
+    # 10 a wrapper around a procedure with locals has that procedure's MAST root (and no locals of its own)
+    us.append({"mods": [
+        mod("la::a", [proc("p", [op(1), it("loc", k=1)], locals_=2), proc("w", [it("exec", i=1)]), proc("w2", [it("exec", i=2)]), proc("c", [it("call", i=2)])]),
+        mod("lb::b", [proc("v", [X("xexec", "la::a", "p")]), proc("u", [X("xcall", "la::a", "w2")], locals_=1)])],
+        "kernel": [],
+        "progs": [prog([X("xexec", "la::a", "w")]), prog([X("xcall", "la::a", "p")]), prog([X("xexec", "lb::b", "v"), X("xcall", "la::a", "c")]),
+                  prog([X("xcall", "lb::b", "u")]), prog([it("call", i=2)], [proc("lp", [op(1), it("loc", k=0)], export=False, locals_=1), proc("lw", [it("exec", i=1)], export=False)])]})
     return us
 
 
